@@ -50,4 +50,5 @@ def main(tier):
     chk.run("R-CHOICETYPE", B.choicetype, cx.repo, cx.cpp, floor=2)
     chk.run("R-STORAGEIFACE", C.storageiface, cx.cpp, cx.templates, floor=12)
     chk.run("R-PARAMVIS", B.paramvis, cx.repo, cx.templates, floor=1)
+    chk.run("R-RESUBREPL", B.resubrepl, cx.repo, floor=3)
     return chk.finish()
